@@ -8,6 +8,7 @@ Driver for C17 (stateful: one reporter + scope per `begin`).  Lines:
   `use <kind…> <name hex> <tags k:v,…> => <outcome> <callbacks> <error classes>`
         kind: `c` | `g` | `t` | `ts` | `th` | `hv <bounds f64s>` | `hd <ns:secsbits;…> <maxsecs bits>`
               | `rc` | `rg` (`RegisterCounter` / `RegisterGauge`, then `With(tags)` by the caller)
+              | `rcd <desc hex>` | `rgd <desc hex>` (the same with the caller's own help text; `-` = empty)
         outcome: `usable` | `noop` | `cbpanic` | `regerr` | `nilvec` | `nilpanic` | `panic`
         error classes: `prev` | `already` | `other`, `;`-separated, `-` for none
   `op <id> inc <n>` | `op <id> upd <bits>` | `op <id> rec <secs bits>` | `op <id> sv <bits>` | `op <id> sd <ns>`  `=> ok|panic`
@@ -196,6 +197,8 @@ def parseKind : List String → Option (UseKind × List String)
   | "th" :: r => some (.timerAs true, r)
   | "rc" :: r => some (.counterAs, r)
   | "rg" :: r => some (.gaugeAs, r)
+  | "rcd" :: desc :: r => do pure (.counterAsD (← ofHex desc), r)
+  | "rgd" :: desc :: r => do pure (.gaugeAsD (← ofHex desc), r)
   | "hv" :: spec :: r => do pure (.histogram (.values (← f64List spec)), r)
   | "hd" :: spec :: m :: r => do
     let s ← parseList parseDurBound spec
